@@ -434,6 +434,11 @@ def corpus():
                                                   '#[typeshare]\npub type L1 = envelope::Page<a::A1>;\n'})
     mk('nested-qualified-only-inner', {'envelope/src/lib.rs': ENV, 'a/src/lib.rs': A,
                                        'b/src/lib.rs': '#[typeshare]\npub struct B1 { pub f: envelope::Envelope<a::A3> }\n'})
+    # a type of the importing crate shadows a glob-imported (and serde-renamed) type of the same Rust name: the reference is LOCAL
+    # (seeded C09_d: rename resolution consulted glob-imported crates before the crate's own types)
+    mk('local-type-shadows-glob-renamed', {'a/src/lib.rs': A, 'b/src/lib.rs': 'use a::*;\n#[typeshare]\npub struct A2 { pub z: u8 }\n#[typeshare]\npub struct B1 { pub f: A2, pub g: Vec<A2>, pub h: A1 }\n'}, reps=4, mix=True)
+    mk('local-type-shadows-glob-renamed-two-files', {'a/src/lib.rs': A, 'b/src/lib.rs': 'use a::*;\n#[typeshare]\npub struct B0 { pub h: A3 }\n',
+                                                     'b/src/own.rs': '#[typeshare]\npub struct A2 { pub z: u8 }\n#[typeshare]\n#[serde(tag = "t", content = "c")]\npub enum E1 { V0(A2), V1 { f: Option<A2> } }\n'}, reps=4, mix=True)
     mk('generic-param-not-a-reference', {'a/src/lib.rs': '#[typeshare]\npub struct U { pub x: u8 }\n', 'b/src/lib.rs': 'use a::U;\n#[typeshare]\npub struct B1<U> { pub f: U }\n'})
     return out
 
